@@ -247,13 +247,15 @@ class ResourceMap:
         # Handle.
         # More extensive checks are done through assertions in debug
         # mode.
-        dest_map = target_map.handles
-        other_map = target_map.maps
+        # Delete duplicates, in every layer of handles: a shadowed
+        # handle would otherwise resurface under the name of a map.
         if isinstance(value, ResourceMap):
-            dest_map, other_map = other_map, dest_map
-
-        other_map.pop(last_key, None)         # Delete duplicates
-        dest_map[last_key] = value
+            for layer in target_map.handles.maps:
+                layer.pop(last_key, None)
+            target_map.maps[last_key] = value
+        else:
+            target_map.maps.pop(last_key, None)
+            target_map.handles[last_key] = value
 
         # Set added value's key in its immediate parent (last_key)
         # and the parent itself
